@@ -35,12 +35,12 @@ type c10Case struct {
 func c10Cases() []c10Case {
 	var cs []c10Case
 	for _, mon := range []bool{false, true} {
-		for _, f := range []string{"read-syscall", "read-other", "write-syscall", "write-other", "timeouts", "link-change"} {
+		for _, f := range []string{"read-syscall", "read-other", "write-syscall", "write-other", "timeouts", "link-change", "link-change-then-close"} {
 			if mon && strings.HasPrefix(f, "write") {
 				continue
 			}
 			for _, rd := range []string{"ok", "notready-once"} {
-				recoverable := f == "read-syscall" || f == "write-syscall" || f == "link-change"
+				recoverable := c10Recoverable(f)
 				if !recoverable && rd != "ok" {
 					continue
 				}
@@ -64,7 +64,7 @@ func c10Cases() []c10Case {
 }
 
 func c10Recoverable(f string) bool {
-	return f == "read-syscall" || f == "write-syscall" || f == "link-change" || f == "write-unicast-pending-syscall"
+	return f == "read-syscall" || f == "write-syscall" || f == "link-change" || f == "link-change-then-close" || f == "write-unicast-pending-syscall"
 }
 
 func c10Scenario(c c10Case) *vsched.Scenario {
@@ -145,6 +145,10 @@ func c10Scenario(c c10Case) *vsched.Scenario {
 					}
 				case "link-change":
 					vsched.Send("harness:link-change", watchC, netstate.LinkDown)
+				case "link-change-then-close":
+					// The watcher reports a change and then halts (closes its channels).
+					vsched.Send("harness:link-change", watchC, netstate.LinkDown)
+					vsched.Close("harness:watcher-halts", watchC)
 				case "write-unicast-pending-other", "write-unicast-pending-syscall":
 					vsched.Sleep(1100 * time.Millisecond) // a multicast RA went out at 6s
 					inject(rsFrom("::", false))            // its answer is held back until 9s
@@ -162,7 +166,15 @@ func c10Scenario(c c10Case) *vsched.Scenario {
 					vsched.Obs("cancel", "")
 					cancel()
 				}
-				vsched.Sleep(3 * time.Second)
+				if c.CancelAt == "" && c10Recoverable(c.Fault) && !c.Monitor {
+					// The re-established advertiser must really serve again: a solicitation
+					// after the re-dial, and time for the first periodic RA of the new connection.
+					vsched.Sleep(1500 * time.Millisecond)
+					inject(rsFrom("fe80::9", true))
+					vsched.Sleep(2500 * time.Millisecond)
+				} else {
+					vsched.Sleep(3 * time.Second)
+				}
 				vsched.Obs("script-end", "")
 				if c.CancelAt == "" {
 					cancel()
@@ -273,6 +285,19 @@ func c10Scenario(c c10Case) *vsched.Scenario {
 				if !got {
 					bad("C10:no-initial-ra-after-redial", "the re-established connection did not get an initial multicast RA")
 				}
+				nm, nu := 0, 0
+				for _, wr := range w.Writes() {
+					if wr.Conn == 1 && wr.Err == nil && wr.T < x.Log[endIdx].T {
+						if isAllNodes(wr.Dst) {
+							nm++
+						} else if wr.Dst.String() == "fe80::9" {
+							nu++
+						}
+					}
+				}
+				if nm < 2 || nu != 1 {
+					bad("C10:not-serving-after-redial", "after the re-dial the new connection carried %d multicast RAs (want the initial one and at least one periodic) and %d answers to the solicitation sent 1.5s after the fault (want 1): the task looks alive but does not serve", nm, nu)
+				}
 			}
 			if retIdx >= 0 && retIdx < endIdx {
 				bad("C10:gave-up", "Run returned %q after a recoverable fault", retDetail)
@@ -304,7 +329,7 @@ func c10Scenario(c c10Case) *vsched.Scenario {
 func TestVerifC10(t *testing.T) {
 	r := ev.Begin("C10", "teardown")
 	defer r.End(t)
-	r.Rule = "executions = goroutine schedules within the deviation bound of the instrumented real Advertiser and Monitor (real Dialer, real dial() over fakes) with one fault injected while running: ReadFrom error (syscall / other), 3rd WriteTo error (syscall / other), five receive timeouts, a link-state change; x re-dial answers {ok, link-not-ready once}; x cancellation {none, right after the fault, during the back-off}; oracle on the ordered log: recoverable => old connection cleaned up (left group + closed once) then a new one opened within 1s and given an initial RA, unrecoverable => Run returns an error within 1s after cleanup, never any I/O on the old connection after close / re-dial / return, cancellation => return within 1s (nil during back-off)"
+	r.Rule = "executions = goroutine schedules within the deviation bound of the instrumented real Advertiser and Monitor (real Dialer, real dial() over fakes) with one fault injected while running: ReadFrom error (syscall / other), 3rd WriteTo error (syscall / other), five receive timeouts, a link-state change (also followed by the watcher halting); x re-dial answers {ok, link-not-ready once}; x cancellation {none, right after the fault, during the back-off}; oracle on the ordered log: recoverable => old connection cleaned up (left group + closed once) then a new one opened within 1s, given an initial RA, a periodic RA and an answer to a solicitation sent after the re-dial, unrecoverable => Run returns an error within 1s after cleanup, never any I/O on the old connection after close / re-dial / return, cancellation => return within 1s (nil during back-off)"
 	opts := exploreOpts{Bound: 1}
 	if r.Thorough() {
 		opts.Bound = 2
